@@ -299,6 +299,31 @@ class CmpInterp(object):
         raise Unknown("expression %s" % short(e))
 
 
+def r1b_pure_comparisons(cx):
+    """The operators must be functions of the two packages alone: a result remembered on the object (a last-comparison cache keyed by id(other), a memo)
+    makes the answer depend on what was compared before."""
+    cx.rule("C13.R1", "the six rich comparison operators agree with the sign of the base comparison", floor=18)
+    m = cx.repo.module(IR)
+    c = m.cls("InstalledRpm", "C13.R1")
+    methods = dict((st.name, st) for st in c.body if isinstance(st, FUNC_TYPES))
+    todo = [n for n in ("__eq__", "__ne__", "__lt__", "__le__", "__gt__", "__ge__") if n in methods]
+    seen = set()
+    while todo:
+        n = todo.pop()
+        if n in seen or n not in methods:
+            continue
+        seen.add(n)
+        fn = methods[n]
+        for x in find_calls(fn.body):
+            if isinstance(x.func, ast.Attribute) and U(x.func.value) in ("self", "other") and x.func.attr in methods:
+                todo.append(x.func.attr)
+        stores = [x for x in walk_body(fn.body) if isinstance(x, (ast.Attribute, ast.Subscript)) and isinstance(x.ctx, (ast.Store, ast.Del))
+                  and U(x).split(".")[0].split("[")[0] in ("self", "other")]
+        uses_id = [x for x in find_calls(fn.body, name="id")]
+        cx.require(not stores and not uses_id, (stores + uses_id)[0] if (stores + uses_id) else fn, "InstalledRpm.%s computes its answer from the two packages only (no state kept on either, no identity-keyed memo)" % n,
+                   construct=short((stores + uses_id)[0]) if (stores + uses_id) else "def %s" % n)
+
+
 def r2_field_order(cx):
     cx.rule("C13.R2", "epoch, then version, then release; each compared field against the same field", floor=27)
     m = cx.repo.module(RV)
@@ -369,6 +394,7 @@ def run(cx):
     cx.undecided = ["agreement of _rpm_vercmp with rpmvercmp.c over all strings (segments, '~', '^', leading zeros, non-ASCII)", "reflexivity / antisymmetry / transitivity of the segment algorithm"]
     cx.extra["exhaustive"] = True
     cx.guard(r1_operator_coherence)
+    cx.guard(r1b_pure_comparisons)
     cx.guard(r2_field_order)
     cx.guard(r3_lookups)
     cx.guard(r4_normalisation)
